@@ -71,7 +71,7 @@ def run(pid, gspec, repo, workdir, stride=1):
             except subprocess.TimeoutExpired:
                 raise Undecided('grid %s: wall-clock cap exceeded' % n)
             if not done:
-                err = ' | '.join(l for l in out.split('\n') if l.startswith('error'))[:600]
+                err = ' | '.join(l for l in out.split('\n') if l.startswith('error'))[:600] + ' || ' + out[-1500:].replace('\n', ' | ')
                 raise Undecided('grid %s did not run on this tree (the public API it drives changed, or the build failed): %s' % (n, err or out[-400:].replace('\n', ' | ')))
             cases = int(done.group(2))
             if cases == 0:
